@@ -146,9 +146,8 @@ def contains_char(s, ch):
                 if p.kind == 'mac' and ch == '-':
                     return True
                 raise Unsupported('membership of %r in %s atom' % (ch, p.kind))
-    # literal could straddle parts only if ch has >1 char; be conservative
-    if len(ch) > 1:
-        raise Unsupported('multi-character membership across parts')
+    # no literal part contains ch, no atom can contain any of its characters: a multi-character ch could only
+    # straddle two adjacent literal parts, which normalisation (SStr merges adjacent literals) rules out
     return False
 
 
